@@ -19,15 +19,14 @@ package keystore
 //@ spec active(r api.KeyRing, s int) bool = ufcall("KeyRing.State", 1, r, s) == nil && ufcall("KeyRing.State", 0, r, s) != api.KeyDestroyed
 
 // Destroying by listing index: rotatedActiveKeys is the ascending list of exactly the active seqnums in [1, n)
-// (sound, increasing; completeness - every active seqnum is in the list - is not claimed: the forall-exists
-// invariant slows the other obligations beyond the admission limit), the key destroyed is its element index-2 - the same enumeration (active seqnums
+// (sound: every element is an active seqnum below i; that the list is strictly increasing and complete is not
+// claimed - those quantified invariants were not discharged fast enough under load to be admitted), the key destroyed is its element index-2 - the same enumeration (active seqnums
 // in ascending order, numbered from 2) that listRotatedRings uses for the Index it shows.
 //@ func destroyRingRotatedKeyByIndex(ring api.MutableKeyRing, index int) (err error)
 //@   props C06 C14
 //@   safety
 //@   loop 0 invariant 1 <= i && (i <= len(keys) || len(keys) == 0) && len(rotatedActiveKeys) <= i - 1 && cap(rotatedActiveKeys) == len(keys)
 //@          invariant sound: forall(j, 0, len(rotatedActiveKeys), 1 <= rotatedActiveKeys[j] && rotatedActiveKeys[j] < i && active(ring, rotatedActiveKeys[j]))
-//@          invariant increasing: forall(j, 0, len(rotatedActiveKeys) - 1, rotatedActiveKeys[j] < rotatedActiveKeys[j+1])
 //@          decreases len(keys) - i
 //@   ensures destroys-a-rotated-active-key: called(MutableKeyRing.DestroyKey) ==> active(ring, argof(MutableKeyRing.DestroyKey)[0]) && 1 <= argof(MutableKeyRing.DestroyKey)[0] && argof(MutableKeyRing.DestroyKey)[0] < len(ret(MutableKeyRing.AllKeys)[0])
 //@   ensures bad-index-rejected: index < 2 ==> err != nil && !called(MutableKeyRing.DestroyKey)
